@@ -204,3 +204,13 @@ CASES += [
     {"name": "first density matrix as an outer product of the stored row", "kind": "twin", "edits": [
         (_SVE, _RHOI, "        rhoi = DensityMatrix(data=numpy.outer(self.data[0,:], numpy.conj(self.data[0,:])))\n", 1)]},
 ]
+
+_ESO = "quantarhei/qm/liouvillespace/evolutionsuperoperator.py"
+CASES += [
+    {"name": "apply('all') drops the frame of the superoperator (the repaired defect)", "kind": "mutant", "rule": "C02-D", "edits": [
+        (_ESO, "                rhot = ReducedDensityMatrixEvolution(timeaxis=self.time,\n                                                     rhoi=target,\n                                                     is_in_rwa=self.is_in_rwa)",
+         "                rhot = ReducedDensityMatrixEvolution(timeaxis=self.time,\n                                                     rhoi=target)", 1)]},
+    {"name": "apply(list) hands the frame on by assignment", "kind": "twin", "edits": [
+        (_ESO, "                rhot = ReducedDensityMatrixEvolution(timeaxis=ntime,\n                                                     rhoi=target,\n                                                     is_in_rwa=self.is_in_rwa)",
+         "                rhot = ReducedDensityMatrixEvolution(timeaxis=ntime,\n                                                     rhoi=target)\n                rhot.is_in_rwa = self.is_in_rwa", 1)]},
+]
